@@ -248,7 +248,8 @@ func (c *Client) JoinPresence(ctx context.Context, p stanza.Presence, s *xmpp.Se
 		client:  c,
 		session: s,
 
-		join: make(chan joinCtx, 1),
+		join:  make(chan joinCtx, 1),
+		joinQ: make(chan struct{}, 1),
 		// Buffered: the presence handler notifies without blocking, and a Leave
 		// that has sent its presence but not yet started to wait must not miss it.
 		depart: make(chan struct{}, 1),
